@@ -221,6 +221,15 @@ def fold_class_constants(trees):
                     _immutable_literal(val) or (_literal_table(val) and _read_only_uses(trees, tgt))):
                 consts[(cn, tgt)] = val
                 by_name.setdefault(tgt, []).append(cn)
+            elif tgt and cnt.get(tgt) == 1 and tgt not in stored and isinstance(val, ast.Dict) and val.keys and all(
+                    k is not None and _immutable_literal(k) for k in val.keys) and _read_only_uses(trees, tgt):
+                # a dispatch table of the class's own functions: {'normal': _sample_normal, ...} (names of
+                # functions defined in this class body) -- its values are read as Class.<function>
+                own = {f_.name for f_ in c.body if isinstance(f_, ast.FunctionDef) and not f_.decorator_list}
+                if all(isinstance(v_, ast.Name) and v_.id in own for v_ in val.values):
+                    consts[(cn, tgt)] = ast.Dict(keys=[copy.deepcopy(k) for k in val.keys], values=[
+                        ast.Attribute(value=ast.Name(id=cn, ctx=ast.Load()), attr=v_.id, ctx=ast.Load()) for v_ in val.values])
+                    by_name.setdefault(tgt, []).append(cn)
     if not consts:
         return 0
     n = [0]
